@@ -28,3 +28,20 @@ pub fn take_keys(instance: usize) -> Vec<SessionKeys> {
     });
     out
 }
+
+/// Publication probe: called (if installed) right after each of the three statements that publish
+/// `Connected` — 1: the state, 2: `write_epoch`, 3: `write_seq` — so the harness can act as a
+/// concurrent sender at exactly these points.
+type Probe = std::sync::Arc<dyn Fn(usize, u8) + Send + Sync>;
+static PROBE: Mutex<Option<Probe>> = Mutex::new(None);
+
+pub fn set_publish_probe(f: Option<Probe>) {
+    *PROBE.lock() = f;
+}
+
+pub fn publish_point(instance: usize, point: u8) {
+    let f = PROBE.lock().clone();
+    if let Some(f) = f {
+        f(instance, point);
+    }
+}
